@@ -86,6 +86,14 @@ func (c *pieceCtx) factCallFor(name string, want bool, need LockSet, piece ssa.V
 			}
 			return samePiecePtr(call.Call.Args[0], piece)
 		},
+		retarget: func(call *ssa.Call, h *ssa.Function) (lockedFact, bool) {
+			for i, a := range call.Call.Args {
+				if i < len(h.Params) && samePiecePtr(a, piece) {
+					return c.factCallFor(name, want, need, h.Params[i]), true
+				}
+			}
+			return lockedFact{}, false
+		},
 	}
 }
 
@@ -322,7 +330,10 @@ func (c *pieceCtx) r1(rule string) {
 		usesOfBuffer(ld, &uses, map[ssa.Value]bool{})
 		for _, u := range uses {
 			key := fmt.Sprintf("%s/%s", fname(u.In.Parent()), u.Kind)
-			if allowed[fn.Name()][u.Kind] && in.Parent() == fn && u.In.Parent() == fn {
+			if (u.Kind == "len" || u.Kind == "niltest") && relPkg(u.In.Parent()) == "tor/piece" {
+				// the length and the nil-ness of the buffer expose no bytes (whether the value is current is R6's business)
+				r.Ok(rule, key, u.In.Pos(), "use of the piece buffer (%s) that neither reads nor writes its bytes", u.Kind)
+			} else if allowed[fn.Name()][u.Kind] && in.Parent() == fn && u.In.Parent() == fn {
 				r.Ok(rule, key, u.In.Pos(), "use of the piece buffer (%s) is one of the enumerated ones for %s", u.Kind, fn.Name())
 			} else if roots, stray := c.p.unitRoots(u.In.Parent(), func(g *ssa.Function) bool {
 				return relPkg(g) == "tor/piece" && g.Parent() == nil && allowed[g.Name()] != nil && g.Signature.Recv() != nil
@@ -979,7 +990,7 @@ func (c *pieceCtx) r7(rule string) {
 				if !instrReaches(call, ret) {
 					continue
 				}
-				if !derivesOnlyFrom(ret.Results[0], func(v ssa.Value) bool {
+				if !sumsOnlyOf(ret.Results[0], func(v ssa.Value) bool {
 					ex, ok := v.(*ssa.Extract)
 					if ok && ex.Index == 0 {
 						if cc, ok := ex.Tuple.(*ssa.Call); ok && cc.Call.StaticCallee() == readAt {
@@ -1148,6 +1159,79 @@ func derivesOnlyFrom(v ssa.Value, leaf func(ssa.Value) bool) bool {
 		return false
 	}
 	return rec(v)
+}
+
+// sumsOnlyOf: v is built only from values satisfying leaf by phis, integer conversions, additions, cells of named
+// results, and results of functions of the module that are themselves so built (a count accumulated over several
+// reads: n += r.readMore(a[n:], …)).
+func sumsOnlyOf(v ssa.Value, leaf func(ssa.Value) bool) bool {
+	seen := map[ssa.Value]bool{}
+	var rec func(v ssa.Value, d int) bool
+	rec = func(v ssa.Value, d int) bool {
+		if v == nil || d > 12 {
+			return false
+		}
+		if seen[v] {
+			return true
+		}
+		seen[v] = true
+		if leaf(v) {
+			return true
+		}
+		switch x := v.(type) {
+		case *ssa.Phi:
+			for _, e := range x.Edges {
+				if !rec(e, d+1) {
+					return false
+				}
+			}
+			return true
+		case *ssa.Convert:
+			return isInteger(x.Type()) && rec(x.X, d+1)
+		case *ssa.ChangeType:
+			return rec(x.X, d+1)
+		case *ssa.BinOp:
+			return x.Op == token.ADD && rec(x.X, d+1) && rec(x.Y, d+1)
+		case *ssa.UnOp:
+			if al, ok := x.X.(*ssa.Alloc); ok && x.Op == token.MUL {
+				n := 0
+				for _, ref := range *al.Referrers() {
+					if st, ok := ref.(*ssa.Store); ok && st.Addr == ssa.Value(al) {
+						n++
+						if !rec(st.Val, d+1) {
+							return false
+						}
+					}
+				}
+				return n > 0
+			}
+		case *ssa.Call, *ssa.Extract:
+			var call *ssa.Call
+			idx := 0
+			if c, ok := x.(*ssa.Call); ok {
+				call = c
+			} else if ex := x.(*ssa.Extract); true {
+				call, _ = ex.Tuple.(*ssa.Call)
+				idx = ex.Index
+			}
+			if call == nil || call.Call.IsInvoke() {
+				return false
+			}
+			h := call.Call.StaticCallee()
+			if h == nil || h.Blocks == nil || !strings.HasPrefix(funcPkgPath(h), modPath) {
+				return false
+			}
+			for _, ret := range returnsOf(h) {
+				res := retResults(ret)
+				if idx >= len(res) || !rec(res[idx], d+1) {
+					return false
+				}
+			}
+			return true
+		}
+		return false
+	}
+	return rec(v, 0)
 }
 
 // ---------- R8 ----------
